@@ -78,6 +78,10 @@ def _inside_with_set_random_state(prog, fn, node):
     return None
 
 
+_DRAW_METHODS = {'choice', 'normal', 'uniform', 'rand', 'randn', 'random', 'random_sample', 'standard_normal', 'multivariate_normal', 'shuffle', 'permutation',
+                 'integers', 'randint', 'beta', 'gamma', 'exponential', 'binomial', 'poisson', 'standard_t', 'bytes'}
+
+
 def rng_sites(prog, fn):
     """RNG-relevant call sites written directly in fn (nested defs excluded)."""
     out = []
@@ -92,11 +96,27 @@ def rng_sites(prog, fn):
                 out.append(RngSite(fn, call, nm, scoped))
             elif leaf == 'default_rng' and not call.args and not call.keywords:
                 out.append(RngSite(fn, call, nm + '() (OS entropy)', scoped, 'entropy'))
+            elif leaf in ('default_rng', 'Generator', 'RandomState', 'PCG64', 'MT19937', 'SeedSequence') and fn.module.name != 'copulas.utils':
+                out.append(RngSite(fn, call, nm + '(...): a generator of its own', scoped, 'private-stream'))
             continue
         if nm in K.OTHER_ENTROPY:
             out.append(RngSite(fn, call, nm, scoped, 'entropy'))
             continue
         meth = call_name(call)
+        if isinstance(call.func, ast.Attribute) and meth in _DRAW_METHODS and fn.module.name != 'copulas.utils':
+            # a draw method called on the model's own RandomState (directly, through a local, or as one alternative of a conditional)
+            def model_state(e, depth=0):
+                if isinstance(e, ast.Attribute) and e.attr == 'random_state':
+                    return True
+                if isinstance(e, ast.IfExp):
+                    return model_state(e.body, depth + 1) or model_state(e.orelse, depth + 1)
+                if isinstance(e, ast.Name) and depth < 3:
+                    return any(model_state(a.value, depth + 1) for a in walk_no_nested(fn.node) if isinstance(a, ast.Assign)
+                               and any(isinstance(t, ast.Name) and t.id == e.id for t in a.targets))
+                return False
+            if model_state(call.func.value):
+                out.append(RngSite(fn, call, f'.{meth}() on the model\'s own random_state', scoped, 'model-stream'))
+                continue
         if isinstance(call.func, ast.Attribute) and meth in K.RNG_METHODS:
             kw = kwarg(call, K.RNG_METHODS[meth])
             if kw is None or (isinstance(kw, ast.Constant) and kw.value is None):
